@@ -42,6 +42,7 @@ class C10(Check):
         "per-patch histogram (data - samples[k]) of HistData.from_catalog are compared with the explicit interval rule "
         "and with each other. non-trivial = at least one object sits exactly on an inner and on an outer edge; "
         "distinct = case parameters + seed"
+        ' Further classes: more than 256 bins, lowest edge exactly 0 with non-positive redshifts, a patch entirely on an outer edge, weights of either sign, binned reference randoms; the rule is applied to the redshifts as given.'
     )
     assumptions = ["membership of patch p is fixed by construction (points generated around centre p, nearest-centre assignment with margin)"]
     floor_nontrivial = 30
